@@ -218,10 +218,11 @@ def cases(tier, seed):
     out = []
 
     def alt(u):
-        members = [m for m in cl[inf[u].dims] if m != u]
+        # positively scaled alternatives only: the ordering clauses are stated for those
+        members = [m for m in cl[inf[u].dims] if m != u and inf[m].num > 0]
         return rnd.choice(members) if members else u
 
-    pairs = covers.same_dim_pairs(seed, 40 if big else 10)
+    pairs = covers.same_dim_pairs(seed, 40 if big else 10, positive_only=True)
     extra = [("percent", "ppm"), ("radian", "degree"), ("count", "percent"), ("kilometer", "inch"), ("millisecond", "hour"), ("kilowatt_hour", "electron_volt")]
     # same-dimension operators
     for op in ("add", "sub", "floordiv", "mod", "divmod", "eq", "ne", "lt", "le", "gt", "ge"):
